@@ -178,5 +178,104 @@ pub fn run(_args: &[String]) {
             }
         }
     }
+    if let Some(found) = stacks(&mut evals) {
+        println!("{{\"found\":{},\"evaluations\":{},\"distinct_nontrivial\":{}}}", found, evals, evals);
+        return;
+    }
     println!("{{\"found\":null,\"evaluations\":{},\"distinct_nontrivial\":{}}}", evals, evals);
+}
+
+/// Lookups through stacks of three read-only levels (and an optional write side): `get` returns the copy of the
+/// first level that holds one and, with a checker, succeeds exactly when all copies are equal; `touch` reports
+/// presence and marks the first copy only.
+fn stacks(evals: &mut u64) -> Option<String> {
+    let name = "thekey";
+    let old = filetime::FileTime::from_unix_time(1_000_000_000, 0);
+    for writer in ["none", "empty", "holding"] {
+        for mask in 0u8..8 {
+            for checker in [false, true] {
+                for same in [true, false] {
+                    if !checker && !same {
+                        continue;
+                    }
+                    *evals += 1;
+                    let root = tempfile::tempdir().unwrap();
+                    let wdir = root.path().join("w");
+                    std::fs::create_dir_all(&wdir).unwrap();
+                    let mut b = CacheBuilder::new();
+                    if writer != "none" {
+                        b.plain_writer(&wdir, 100);
+                    }
+                    let mut holders: Vec<(std::path::PathBuf, Vec<u8>)> = Vec::new();
+                    if writer == "holding" {
+                        holders.push((wdir.join(name), if same { b"SAME".to_vec() } else { b"W000".to_vec() }));
+                    }
+                    for lvl in 0..3u8 {
+                        let d = root.path().join(format!("r{}", lvl));
+                        std::fs::create_dir_all(&d).unwrap();
+                        b.plain_reader(&d);
+                        if mask & (1 << lvl) != 0 {
+                            holders.push((d.join(name), if same { b"SAME".to_vec() } else { format!("L{}__", lvl).into_bytes() }));
+                        }
+                    }
+                    for (p, bytes) in holders.iter() {
+                        std::fs::File::create(p).unwrap().write_all(bytes).unwrap();
+                        filetime::set_file_times(p, old, old).unwrap();
+                    }
+                    if checker {
+                        b.byte_equality_checker();
+                    }
+                    let cache = b.build();
+                    let key = Key::new(name, 11, 22);
+                    let cfg = format!(
+                        "{{\"stack\":\"writer={} + 3 plain readers\",\"levels_holding_mask\":{},\"checker\":{},\"copies_equal\":{}",
+                        writer, mask, checker, same
+                    );
+                    // touch first: it must not open or mark anything but the first copy
+                    let touched = cache.touch(key);
+                    let mut problem: Option<String> = None;
+                    match touched {
+                        Err(_) => problem = Some("touch failed".into()),
+                        Ok(t) if t != !holders.is_empty() => problem = Some("touch reported the wrong presence".into()),
+                        Ok(_) => {
+                            for (i, (p, _)) in holders.iter().enumerate() {
+                                let at = filetime::FileTime::from_last_access_time(&std::fs::metadata(p).unwrap());
+                                if i == 0 && at == old {
+                                    problem = Some("touch did not mark the first copy".into());
+                                }
+                                if i > 0 && at != old {
+                                    problem = Some("touch marked a copy behind the first one".into());
+                                }
+                            }
+                        }
+                    }
+                    if problem.is_none() {
+                        let distinct = holders.iter().any(|(_, b)| b != &holders[0].1);
+                        match cache.get(key) {
+                            Err(_) if checker && distinct => {}
+                            Err(_) => problem = Some("get failed although nothing was wrong".into()),
+                            Ok(_) if checker && distinct => problem = Some("get succeeded although the copies differ".into()),
+                            Ok(None) if !holders.is_empty() => problem = Some("get missed a key that is present".into()),
+                            Ok(None) => {}
+                            Ok(Some(_)) if holders.is_empty() => problem = Some("get hit a key that is absent".into()),
+                            Ok(Some(mut f)) => {
+                                let mut s = Vec::new();
+                                if f.seek(SeekFrom::Current(0)).unwrap() != 0 {
+                                    problem = Some("get returned a handle that is not at offset 0".into());
+                                }
+                                f.read_to_end(&mut s).unwrap();
+                                if problem.is_none() && s != holders[0].1 {
+                                    problem = Some("get did not return the whole first copy in lookup order".into());
+                                }
+                            }
+                        }
+                    }
+                    if let Some(what) = problem {
+                        return Some(format!("{},\"what\":\"{}\"}}", cfg, what));
+                    }
+                }
+            }
+        }
+    }
+    None
 }
